@@ -48,8 +48,8 @@ TOL_CONST = 1e-10    # ||W 1||_inf <= TOL_CONST ||W||_inf
 TOL_REG_SYM = 2e-12  # regular part symmetric (relative, max norm)
 # singular-quadrature asymmetry of E / M (relative, max norm), calibrated on /repo (see stats e_asym_*, m_asym_*):
 SYM_ORDERS = (3, 6)
-SYM_BOUND_LO = 5e-2   # at order SYM_ORDERS[0]
-SYM_BOUND_HI = 5e-3   # at order SYM_ORDERS[1]
+# observed maxima over quick seeds 0-3 + thorough: E 1.0e-3 / 1.4e-5 (ratio <= 0.015), M 2.1e-2 / 3.4e-4 (ratio <= 0.016)
+SYM_BOUND = {"efield": (5e-2, 5e-4), "mfield": (2e-1, 5e-3)}   # (at SYM_ORDERS[0], at SYM_ORDERS[1])
 SYM_SHRINK = 0.5      # asym(hi) <= SYM_SHRINK * asym(lo)  (unless already below SYM_FLOOR)
 SYM_FLOOR = 1e-6
 
@@ -503,13 +503,14 @@ def _oracle(ctx, deep, only):
                 res.case(key=("sym", opname, G["name"], _kw_tag(kw)), nontrivial=bool(nt),
                          sample=dict(check="complex-symmetry", op=opname, grid=G["name"], options=_kw_tag(kw),
                                      k=str(kk), asym_lo=lo, asym_hi=hi))
-                bad = (lo > SYM_BOUND_LO) or (hi > SYM_BOUND_HI) or (hi > SYM_FLOOR and hi > SYM_SHRINK * lo)
+                blo, bhi = SYM_BOUND[opname]
+                bad = (lo > blo) or (hi > bhi) or (hi > SYM_FLOOR and hi > SYM_SHRINK * lo)
                 if bad:
                     res.counterexample(
                         f"maxwell-{opname}-not-complex-symmetric",
                         f"{opname} matrix with RWG/SNC built from the same options is not complex-symmetric up to "
                         f"singular-quadrature error: asymmetry {lo:.3e} at singular order {SYM_ORDERS[0]}, {hi:.3e} at "
-                        f"{SYM_ORDERS[1]} (bounds {SYM_BOUND_LO:g}/{SYM_BOUND_HI:g}, required shrink {SYM_SHRINK:g})",
+                        f"{SYM_ORDERS[1]} (bounds {blo:g}/{bhi:g}, required shrink {SYM_SHRINK:g})",
                         grid=G["name"], vertices=np.asarray(g.vertices).tolist(),
                         elements=np.asarray(g.elements).tolist(),
                         domain_indices=np.asarray(g.domain_indices).tolist(), options=str(kw), k=str(kk),
@@ -524,7 +525,7 @@ def _oracle(ctx, deep, only):
         e_regular_asym=worst["e_reg"], m_regular_asym=worst["m_reg"], tol_regular_sym=TOL_REG_SYM,
         e_asym_lo=asym["e_lo"], e_asym_hi=asym["e_hi"], e_asym_ratio=asym["e_ratio"],
         m_asym_lo=asym["m_lo"], m_asym_hi=asym["m_hi"], m_asym_ratio=asym["m_ratio"],
-        sym_orders=list(SYM_ORDERS), sym_bounds=[SYM_BOUND_LO, SYM_BOUND_HI, SYM_SHRINK],
+        sym_orders=list(SYM_ORDERS), sym_bounds={k: list(v) for k, v in SYM_BOUND.items()}, sym_shrink=SYM_SHRINK,
         max_normal_component_of_edge_functions=worst["tang"], grid_normals_vs_vertices=worst["normals"],
         oracle_wall_s=round(time.time() - t0, 1),
     )
